@@ -727,8 +727,8 @@ fn class_of(s: &Session, tag: &str) -> String {
 
 pub fn c08(em: &mut Emit, thorough: bool, seed: u64) {
     let mut rng = Rng::new(seed ^ 0xC08);
-    let depth = if thorough { 5 } else { 4 };
     for cap in [1usize, 2, 3, 4, 7] {
+        let depth = if thorough { 5 } else if cap <= 2 { 4 } else { 3 };
         let al = alphabet(cap);
         let mut idx = vec![0usize; depth];
         // all sequences of length 1..=depth
@@ -762,8 +762,8 @@ pub fn c08(em: &mut Emit, thorough: bool, seed: u64) {
     }
     let n = if thorough { 60_000 } else { 3_000 };
     for _ in 0..n {
-        let cap = *rng.pick(&[1usize, 2, 3, 4, 7, 4096, 65536]);
-        let len = 1 + rng.usize(if cap > 100 { 12 } else { 60 });
+        let cap = if rng.chance(1, 25) { *rng.pick(&[4096usize, 65536]) } else { *rng.pick(&[1usize, 2, 3, 4, 7]) };
+        let len = 1 + rng.usize(if cap > 100 { 6 } else { 60 });
         let mut ops = random_history(&mut rng, cap, len, false, false);
         finish(&mut ops, 2);
         let s = run_ops(cap, 0, &ops);
@@ -930,8 +930,8 @@ pub fn c11(em: &mut Emit, thorough: bool, seed: u64) {
     }
     let n = if thorough { 40_000 } else { 2_000 };
     for i in 0..n {
-        let cap = *rng.pick(&[1usize, 2, 3, 4, 7, 4096]);
-        let len = 1 + rng.usize(30);
+        let cap = if rng.chance(1, 25) { 4096usize } else { *rng.pick(&[1usize, 2, 3, 4, 7]) };
+        let len = 1 + rng.usize(if cap > 100 { 6 } else { 30 });
         let mut ops = random_history(&mut rng, cap, len, true, true);
         finish(&mut ops, 2);
         let level = if i % 4 == 0 { 1 + (i as u32 % 9) } else { 0 };
@@ -944,8 +944,8 @@ pub fn c12_chunk(em: &mut Emit, thorough: bool, seed: u64) {
     let mut rng = Rng::new(seed ^ 0xC12C);
     let n = if thorough { 40_000 } else { 2_500 };
     for i in 0..n {
-        let cap = *rng.pick(&[1usize, 2, 3, 4, 7, 4096]);
-        let len = 1 + rng.usize(25);
+        let cap = if rng.chance(1, 25) { 4096usize } else { *rng.pick(&[1usize, 2, 3, 4, 7]) };
+        let len = 1 + rng.usize(if cap > 100 { 6 } else { 25 });
         let mut ops = vec![];
         for op in random_history(&mut rng, cap, len, i % 3 == 0, false) {
             ops.push(Op::Hint);
@@ -963,8 +963,8 @@ pub fn c20_chunk(em: &mut Emit, thorough: bool, seed: u64) {
     let mut rng = Rng::new(seed ^ 0xC20C);
     let n = if thorough { 40_000 } else { 2_500 };
     for i in 0..n {
-        let cap = *rng.pick(&[1usize, 2, 3, 4, 7, 4096]);
-        let len = 1 + rng.usize(20);
+        let cap = if rng.chance(1, 25) { 4096usize } else { *rng.pick(&[1usize, 2, 3, 4, 7]) };
+        let len = 1 + rng.usize(if cap > 100 { 6 } else { 20 });
         let mut ops = random_history(&mut rng, cap, len, i % 2 == 0, false);
         finish(&mut ops, 4);
         let level = if i % 5 == 0 { 6 } else { 0 };
